@@ -67,4 +67,11 @@ def generate(rng, tier, ctx):
         # choose s small, e from (R.x, pk, msg) with pk = ((s - k)/e)G unknown until e known -> circular; skip exact craft, but exercise s+n on small forged s (rejects both ways)
         s = rng.randint(0, 1000)
         cases.append(('schnorr_verify %s %s %s' % (h32(R[0]) + h32(s + N), hx(rng.bytes(32)), pt(X)), ('verify', 'small-s+n')))
+    # --- the public key argument of BIP-340 Verify: lift_x(int(pk)) fails for pk >= p and for x off the curve
+    small_on = [x for x in range(1, 60) if lift_x(x, 0) is not None]
+    for x in small_on:
+        cases.append(('xonly_parse ' + h32(x + P), ('xonly_parse', 'x+p')))      # must be rejected, not reduced mod p
+        cases.append(('xonly_parse ' + h32(x), ('xonly_parse', 'small-on-curve')))
+    for x in [0, 5, 7, P - 1, P, P + 1, M256 - 1, (1 << 255), N, N - 1] + [rng.scalar(0.5) for _ in range(20 * n)]:
+        cases.append(('xonly_parse ' + h32(x % M256), ('xonly_parse', 'boundary' if x in (0, 5, 7, P - 1, P, P + 1, M256 - 1) else 'gen')))
     return cases
